@@ -10,5 +10,7 @@ func controlsC15() []Control {
 		{Name: "continue step keeps the deadline", Expect: "R2", Mutate: replaceIn("(*tableEngine).continueGame", "te.table.State.CurrentActionEndAt = 0\n", "", 0)},
 		{Name: "hand asks for the next step before invoking the hook", Expect: "R2", Mutate: replaceIn("(*game).onRoundClosed", "g.onGameRoundClosed(gs)\n\n\t// Next round automatically\n\tgs, err := g.backend.Next(gs)", "gs, err := g.backend.Next(gs)\n\tg.onGameRoundClosed(gs)", 0)},
 		{Name: "pause also pushes the deadline", Expect: "R1", Mutate: replaceIn("(*tableEngine).PauseTable", "te.table.State.Status = TableStateStatus_TablePausing", "te.table.State.Status = TableStateStatus_TablePausing\n\tte.table.State.CurrentActionEndAt += 60", 0)},
+		{Name: "turn predicate reads DidAction instead of Acted", Expect: "R3", Mutate: replaceIn("(*tableEngine).updateCurrentActionEndAt", "!p.Acted", "p.DidAction == \"\"", 0)},
+		{Name: "deadline published on every event of a playing hand", Expect: "R3", Mutate: replaceIn("(*tableEngine).updateCurrentActionEndAt", "event == pokerface.GameEvent_RoundStarted && ", "", 0)},
 	}
 }
